@@ -10,7 +10,8 @@ THEOREMS = ['C13_stored_value_at_assert_time', 'C13_stored_independent_of_later_
             'C13_two_uses_disjoint', 'C13_fact_vars_never_bound', 'C13_heap_invariant', 'C13_uses_see_stored_value',
             'C13_compiled_invariant', 'C13_compiled_invariant_big_step', 'C13_compiled_fact_vars_never_bound',
             'C13_compiled_uses_see_stored_value', 'C13_compiled_invariant_at_query_start',
-            'C13_compiled_visits_covers_solutions']
+            'C13_compiled_visits_covers_solutions', 'C13_sequential_uses_fresh', 'C13_fact_vars_never_escape',
+            'C13_retained_answers_invariant']
 RULE = ('(a) histories over a shared heap of 3-6 program variables: unifications that stay suspended (bindings before / after '
         'the assertion, chains, bindings inside structures), asserta/assertz of terms over those variables (builtin, compiled '
         'clause, assert_fact), closing and resuming suspended goals in LIFO order (backtracking), goals on the stored facts '
